@@ -112,6 +112,9 @@ type Spec struct {
 	// ImportAlias[pkg] is the alias under which user files import package pkg
 	// ("" = none).
 	ImportAlias map[int]string `json:"importalias,omitempty"`
+	// SetsInInject writes the root package's set variables into the injector
+	// files (so that Wire copies them into wire_gen.go) instead of sets.go.
+	SetsInInject bool `json:"setsininject,omitempty"`
 	// ExtRoot, when set, gives the non-root packages import paths below it
 	// (external dependencies) instead of below the program's own path.
 	ExtRoot string `json:"extroot,omitempty"`
